@@ -90,4 +90,20 @@ example :
     let col : Column := ⟨fun v => .inr v, fun v => v != ['x']⟩
     (writeRows (σ := Unit) 0 id [col] [] ⟨[], 0, []⟩ [[['a']], [['x']], [['b']]]).1.out = [[['a']], [['b']]] := by decide
 
+/-- **Writing is incremental; a writer can go on after a rejection.** Writing the rows `a ++ b` is writing `a` and then writing `b`
+with the writer as `a` left it - whatever was rejected in `a`: same final writer state (rows emitted, line, check states), the
+verdicts of `a` followed by those of `b`, the calls of `a` followed by those of `b`. -/
+theorem C14_incremental (header : Nat) (pad : Row → Row) (cols : List Column) (checks : List (Check σ)) (w : WState σ) (a b : List Row) :
+    writeRows header pad cols checks w (a ++ b) =
+      ((writeRows header pad cols checks (writeRows header pad cols checks w a).1 b).1,
+       (writeRows header pad cols checks w a).2.1 ++ (writeRows header pad cols checks (writeRows header pad cols checks w a).1 b).2.1,
+       (writeRows header pad cols checks w a).2.2 ++ (writeRows header pad cols checks (writeRows header pad cols checks w a).1 b).2.2) := by
+  induction a generalizing w with
+  | nil => simp [writeRows]
+  | cons r rest ih =>
+    rw [List.cons_append, writeRows, writeRows]
+    simp only []
+    rw [ih]
+    simp only [List.cons_append, List.append_assoc]
+
 end Cutplace.Props
